@@ -226,7 +226,12 @@ func init() {
 		Property: "C07",
 		Cfg:      vsched.Config{Horizon: 10 * time.Second, MaxSteps: 40000000},
 		Params: func(tier string) []Param {
-			return []Param{{Name: "k2-l20000,3-stalled0", Bound: 0, V: map[string]int{"k": 2, "l0": 20000, "l1": 3, "mode": 2}}}
+			return []Param{
+				{Name: "k2-l20000,3-stalled0", Bound: 0, V: map[string]int{"k": 2, "l0": 20000, "l1": 3, "mode": 2}},
+				// the second subscription and the ordinary call are made after the handler of the
+				// stalled stream has produced all of it
+				{Name: "k2-l20000,3-stalled0-late", Bound: 0, V: map[string]int{"k": 2, "l0": 20000, "l1": 3, "mode": 2, "late": 1}},
+			}
 		},
 		Body: streamBody,
 	})
@@ -414,6 +419,9 @@ func streamBody(s *vsched.Sched, p Param) {
 		if name == "consume-rich" {
 			return true
 		}
+		if name == "late-go" {
+			return sw.srv.Done(1)
+		}
 		if strings.HasPrefix(name, "consume-") {
 			var i int
 			fmt.Sscanf(name, "consume-%d", &i)
@@ -515,6 +523,9 @@ func streamBody(s *vsched.Sched, p Param) {
 	for i := 0; i < k; i++ {
 		i := i
 		s.Go(fmt.Sprintf("sub-%d", i), func() {
+			if p.I("late") == 1 && i > 0 {
+				s.Env("late-go") // only once the stalled stream has been produced in full
+			}
 			sw.subscribe(s, i, lens[i], func() bool {
 				switch {
 				case mode == 2 && i == 0:
@@ -527,6 +538,9 @@ func streamBody(s *vsched.Sched, p Param) {
 		})
 	}
 	s.Go("unary", func() {
+		if p.I("late") == 1 {
+			s.Env("late-go")
+		}
 		v, err := sw.cli.Echo(context.Background(), 5)
 		obs.Set("echo", "%d/%v", v, err)
 	})
